@@ -334,20 +334,41 @@ def cond_model(c):
 class SpyGenerator:
     """scripted integer batches that change on every draw; counts draws; logs ('draw', phase, k)"""
 
-    def __init__(self, phase, script, log, ncoords, rec):
+    def __init__(self, phase, script, log, ncoords, rec, kind=None):
         self.phase, self.script, self.log, self.rec = phase, script, log, rec
         self.size = len(script[0][0]) if script else 1
         self.k = 0
         self.ncoords = ncoords
+        # kind: None = fresh leaf tensors; 'index' = the scripted values come out of an INDEXING operation, so they carry autograd
+        # history (like ResampleGenerator / BatchGenerator / FilterGenerator outputs); 'resample' | 'batch' | 'filter' = the real
+        # library generator over a Generator1D (random values: recorded, compared by trace and by the oracle)
+        self.kind = kind
+        self.inner = None
+        if kind in ('resample', 'batch', 'filter'):
+            import neurodiffeq.generators as GN
+            base = GN.Generator1D(6, 0.0, 1.0, method='uniform')
+            self.inner = {'resample': lambda: GN.ResampleGenerator(base), 'batch': lambda: GN.BatchGenerator(base, batch_size=4),
+                          'filter': lambda: GN.FilterGenerator(base, filter_fn=lambda xs: xs[0] >= 0.25)}[kind]()
 
     def get_examples(self):
         torch = _torch()
+        if self.inner is not None:
+            out = self.inner.get_examples()
+            outs = [out] if isinstance(out, torch.Tensor) else list(out)
+            b = [[float(x) for x in o.detach().reshape(-1)] for o in outs]
+            self.log.append(('draw', self.phase, self.k))
+            self.rec['last_draw'] = (self.phase, self.k)
+            self.rec['draws'][self.phase].append(b)
+            self.k += 1
+            return out
         b = self.script[self.k % len(self.script)]
         self.log.append(('draw', self.phase, self.k))
         self.rec['last_draw'] = (self.phase, self.k)
         self.rec['draws'][self.phase].append([list(c) for c in b])
         self.k += 1
         cols = [torch.tensor([float(x) for x in c], requires_grad=True) for c in b]
+        if self.kind == 'index':
+            cols = [c[torch.arange(len(c))] for c in cols]          # same values, but non-leaf tensors with a grad_fn
         return cols[0] if (len(cols) == 1 and self.k % 2 == 0) else cols     # a bare tensor is accepted too
 
 
@@ -456,8 +477,8 @@ class Runner:
             cname = COND_KINDS[c['kind']][0]
             self.conds.append(comp['NoCondition']() if cname == 'NoCondition' else comp[cname](c['tag']))
         ncoords = sc['ncoords']
-        self.gen = {'train': SpyGenerator('train', sc['train_script'], self.log, ncoords, self.rec),
-                    'valid': SpyGenerator('valid', sc['valid_script'], self.log, ncoords, self.rec)}
+        self.gen = {'train': SpyGenerator('train', sc['train_script'], self.log, ncoords, self.rec, sc.get('gen_kind')),
+                    'valid': SpyGenerator('valid', sc['valid_script'], self.log, ncoords, self.rec, sc.get('gen_kind'))}
         runner = self
 
         def eqs(*args):
@@ -1307,6 +1328,8 @@ def gen_eval_op(r, sc, nsol):
     a, b = r.randint(1, 3), r.randint(1, 2)
     shape = r.choice([[a * b], [a * b, 1], [a, b]])
     n = a * b
+    if r.random() < 0.12:
+        shape, n = [], 1            # 0-dimensional coordinates (a torch scalar tensor / a numpy 0-d array)
     coords = [[r.randint(-3, 3) for _ in range(n)] for _ in range(sc['ncoords'])]
     base = {'shape': shape, 'coords': coords, 'as': r.choice(['tensor', 'ndarray']), 'to_numpy': r.random() < 0.4,
             'no_reshape': r.random() < 0.25}
@@ -1470,7 +1493,7 @@ class Campaign:
         try:
             rec = run_scenario(sc)
         except Exception as e:
-            ck.fail(f'{self.tag}/scenario-raises/{type(e).__name__}',
+            ck.fail(sc.get('raise_key') or f'{self.tag}/scenario-raises/{type(e).__name__}',
                     f'running an admissible scenario on the real solver raised {type(e).__name__}: {str(e)[:200]}',
                     {'scenario': sc})
             return None
